@@ -17,8 +17,8 @@ theorem cfg3_cut {g : E2E.Cfg} (ok : g.OK) (hr : g.p.role = 3) {n : Nat} (h8 : 8
     (hn : n < g.term2.ser.length) : Cfg3 (cutCfgF g n) := by
   cases ok.shape with
   | authorizer hr2 hX hU hOt hrv hs hfu0 => omega
-  | responder hr1 hb hf hp hX2 hX hU hOt hrv hs hfu => omega
-  | filter hr3 hb1 hb2 hf hf2 hp hp2 hX2 hX hU hOt hrv hs hfu =>
+  | responderU hr1 hb hf hp hX2 hX hU hOt hrv hs hfu => omega
+  | filterU hr3 hb1 hb2 hf hf2 hp hp2 hX2 hX hU hOt hrv hs hfu =>
     have hid := (pid_lt ok).2
     obtain ⟨hK1, hK2, hfo⟩ := kokF ok hr3 hb1 hb2 hf hf2 hp hp2 hX2 hX
     have htw := term_wf ok hp
